@@ -17,6 +17,7 @@ pub enum Src {
     Canary,
     Lex,
     Unicode,
+    Long,
 }
 impl Src {
     pub fn name(self) -> &'static str {
@@ -31,6 +32,7 @@ impl Src {
             Src::Canary => "g_canary",
             Src::Lex => "g_lex",
             Src::Unicode => "g_unicode",
+            Src::Long => "g_long",
         }
     }
 }
@@ -229,6 +231,21 @@ pub fn byte_stream(ctx: &mut Ctx, cfg: &StreamCfg, f0: &mut dyn FnMut(&mut Ctx, 
         prev = b;
     }
     ctx.rng_state = None;
+    if cfg.corpus {
+        // count thresholds: identifiers with 2^8 +- 2 and 2^9 +- 1 (thorough: also 2^16 +- 1) subtags of one kind, each
+        // followed by a tail of every class (g_long). Keys repeat beyond 936 / 260 distinct ones, which puts those inputs
+        // outside C03 (duplicate keys) - the other monitors still judge them.
+        let big = cfg.wide_len >= 5;
+        let mut k = 0usize;
+        while let Some(b) = gen::long_case(k, big) {
+            if k % n == shard {
+                mon::begin_case_scaled(&b[..b.len().min(64)], 60);
+                f(ctx, &b, Src::Long);
+            }
+            k += 1;
+        }
+        mon::idle();
+    }
     if cfg.corpus {
         // byte-substitution sweep: every position of every pool identifier x all 256 byte values,
         // each near miss directly after the identifier it was made from
